@@ -5,6 +5,7 @@ import (
 	"context"
 	"encoding/json"
 	"fmt"
+	"math"
 	"os"
 	"sort"
 	"strings"
@@ -305,6 +306,17 @@ func genC11(t *rapid.T) C11Case {
 	return c
 }
 
+// safely runs a send of the scripted peer; a panic while encoding one of its own
+// hostile payloads is the harness's problem, not the victim's.
+func safely(fn func() error) (err error) {
+	defer func() {
+		if r := recover(); r != nil {
+			err = fmt.Errorf("scripted peer could not encode its payload: %v", r)
+		}
+	}()
+	return fn()
+}
+
 // panicCounter is a zap core hook that counts recovered handler panics.
 func panicLogger(n *atomic.Int64, first *atomic.Value) *zap.Logger {
 	enc := zapcore.NewJSONEncoder(zapcore.EncoderConfig{MessageKey: "msg"})
@@ -387,6 +399,23 @@ func runC11x(c C11Case, cs *kit.CaseStats, info *c11Info) error {
 		for k := max(1, c.Slow.Late); k > 0 && honestStart.Parent != nil && honestStart.Parent.Idx >= 0; k-- {
 			honestStart = honestStart.Parent
 		}
+	}
+	// Hostile-constant relays: the honest chain grows by its last block after
+	// the relays went out - a victim whose handler swallowed the input but left
+	// something behind (a held lock, a dead loop) no longer follows it. Same
+	// domain as above: the growth must be announceable (v2), and it stays above a
+	// bootstrap checkpoint.
+	growPending := false
+	if c.Slow == nil && H.Block.V2 != nil && H.Parent != nil && H.Parent.Idx >= 0 && H.Parent.Block.V2 != nil && (c.Bootstrap == 0 || H.Height > req+uint64(c.Bootstrap)+1) {
+		for _, bs := range c.Byz {
+			if bs.Dial && strings.HasPrefix(bs.Corr.RPC, "relay") && strings.HasPrefix(bs.Corr.Kind, "hostile") {
+				growPending = true
+			}
+		}
+	}
+	if growPending {
+		honestStart = H.Parent
+		cs.Class("hostile-relay:honest-chain-grows-afterwards")
 	}
 	for i := 0; i < max(1, c.NHonest); i++ {
 		kn, err := p2px.NewChainNode(tr, honestStart, 0)
@@ -726,6 +755,48 @@ func runC11x(c C11Case, cs *kit.CaseStats, info *c11Info) error {
 			}
 			err = p2px.RelayOutline(conn, o)
 			relayAtH[i] = true
+		case "relay-header/hostile-timestamp":
+			vb := mk(true)
+			hd := vb.Header()
+			hd.Timestamp = hostileTime(b.Corr.Arg)
+			if !grindHeader(pst, &hd) {
+				return
+			}
+			err = p2px.RelayHeader(conn, hd)
+		case "relay-outline/hostile-embedded", "relay-outline/hostile-missing", "relay-outline/hostile-field":
+			o, v1, v2, ok := hostileOutline(pst, known.Block.Timestamp, b.Corr.Kind, b.Corr.Arg)
+			if !ok {
+				return
+			}
+			b.OfferTxns(v1, v2)
+			err = safely(func() error { return p2px.RelayOutline(conn, o) })
+		case "relay-txset/hostile-txn":
+			// basis: the tip, its parent, or three blocks back (the proofs of the set
+			// are then updated along the blocks in between)
+			basis := known
+			for k := []int{0, 1, 3}[mod(b.Corr.Arg/hostileV2Variants, 3)]; k > 0 && basis.Parent != nil && basis.Parent.Idx >= 0; k-- {
+				basis = basis.Parent
+			}
+			txns := []types.V2Transaction{hostileV2Txn(b.Corr.Arg, 70)}
+			err = safely(func() error { return p2px.RelayTxnSet(conn, basis.Index(), txns) })
+		case "relay-txset/hostile-basis":
+			// a block the victim has, under a height that is not its height
+			idx := known.Index()
+			switch mod(b.Corr.Arg, 4) {
+			case 0:
+				idx.Height = math.MaxUint64
+			case 1:
+				idx.Height = 0
+			case 2:
+				idx.Height += 1000
+			default:
+				idx = types.ChainIndex{Height: known.Height, ID: genesisID}
+			}
+			txns := []types.V2Transaction{{ArbitraryData: []byte("x")}}
+			if mod(b.Corr.Arg/4, 2) == 1 {
+				txns = []types.V2Transaction{hostileV2Txn(3, 70)}
+			}
+			err = safely(func() error { return p2px.RelayTxnSet(conn, idx, txns) })
 		case "relay-txset/empty":
 			err = p2px.RelayTxnSet(conn, known.Index(), nil)
 		case "relay-txset/unknown-basis":
@@ -801,7 +872,7 @@ func runC11x(c C11Case, cs *kit.CaseStats, info *c11Info) error {
 			tn := tipNode()
 			lighter := tn != nil && tn.Ledger != nil && H.Ledger.State.SufficientlyHeavierThan(tn.Ledger.State)
 			key := fmt.Sprintf("%v/%d", victim.Node.CM.Tip(), victim.CM.SubmittedCount())
-			if stall.observeW(live && lighter && slowDone.Load(), key, stallWindowByz()) && stallOracle() {
+			if stall.observeW(live && lighter && slowDone.Load() && !growPending, key, stallWindowByz()) && stallOracle() {
 				var ps []string
 				for _, p := range victim.S.Peers() {
 					ps = append(ps, fmt.Sprintf("%s synced=%v err=%v", p, p.Synced(), p.Err()))
@@ -835,7 +906,7 @@ func runC11x(c C11Case, cs *kit.CaseStats, info *c11Info) error {
 				}
 			}
 			if tn != nil && tn.Ledger != nil && !H.Ledger.State.SufficientlyHeavierThan(tn.Ledger.State) {
-				if relaysDone {
+				if relaysDone && !growPending {
 					quiescent = true
 					cs.Class("settled-without-synced-flags(near-tie-flapping)")
 					break
@@ -856,6 +927,15 @@ func runC11x(c C11Case, cs *kit.CaseStats, info *c11Info) error {
 					sendRelay(i)
 					pendingRelay = true
 				}
+			}
+			if !pendingRelay && growPending {
+				// every hostile relay had its shots: the honest chain grows
+				growPending = false
+				for _, h := range honest {
+					h.Node.Submit([]types.Block{H.Block})
+				}
+				lastChange = time.Now()
+				continue
 			}
 			if !pendingRelay {
 				quiescent = true
